@@ -28,7 +28,7 @@ def run(tier):
     ck = Check("C10", tier, "model_checking")
     ck.flex()
     quick = tier == "quick"
-    dev = 3 if quick else 5
+    dev = 3 if quick else 6
     jobs = []
     asg = assignments()
     # sources ending inside a token that needs look-ahead ('ab' could continue), empty sources, one-token sources
